@@ -2,6 +2,11 @@
 
 package c02
 
+import (
+	"fmt"
+	"unsafe"
+)
+
 // G5 is generic; the target is the instantiation at int.
 //
 //go:noinline
@@ -52,3 +57,28 @@ func CallQA(x int) int { return Q[*ShA](&ShA{}, x) }
 func CallQB(x int) int { return Q[*ShB](&ShB{}, x) }
 
 func KQA(p *ShA, x int) int { return 100001 }
+
+// Z is generic in a type parameter that does NOT occur in its signature: Z[int8] and Z[string] have the same func type
+// `func(int) int` but different gc shapes, i.e. two compiled bodies and two distinct targets (seed C12-R6-2).
+//
+//go:noinline
+func Z[T any](x int) int {
+	var z T
+	if x > 1<<53 {
+		Sink += len(fmt.Sprint(z))
+		return helper(x, 1) + helper(x+50, x+51)
+	}
+	return x*7 + 1030 + int(unsafe.Sizeof(z))
+}
+
+var ZI = Z[int8]
+var ZS = Z[string]
+
+//go:noinline
+func CallZI(x int) int { return Z[int8](x) }
+
+//go:noinline
+func CallZS(x int) int { return Z[string](x) }
+
+func KZ1(x int) int { return 100001 }
+func KZ2(x int) int { return 100002 }
